@@ -235,7 +235,7 @@ func runC15(args []string) error {
 		path    string // as passed
 		outside bool
 	}
-	for i, in := range []inp{
+	inputs := []inp{
 		{filepath.Join(arch, "keep.txt"), false},
 		{filepath.Join(arch, "sub", "inner.txt"), false},
 		{filepath.Join(root, "outer", "sib", "x"), true},
@@ -253,27 +253,38 @@ func runC15(args []string) error {
 		{filepath.Join(root, "outer", "archive.bin"), true},
 		{filepath.Join(root, "outer", "arch.old", "x"), true},
 		{arch + "/../arch2/sub/s.bin", true},
-	} {
-		if err := buildCanaryTree(root); err != nil {
-			return err
-		}
-		before, _ := sandbox.Take(root)
-		err := func() (e error) {
-			defer func() {
-				if r := recover(); r != nil {
-					e = fmt.Errorf("panic: %v", r)
+	}
+	// second pass ("prior"): the directory already holds the complete output of an earlier, LARGER Create under the
+	// same index name - a refused Create must leave that alone as well
+	for pass := 0; pass < 2; pass++ {
+		for i0, in := range inputs {
+			i := i0 + 100*pass
+			if err := buildCanaryTree(root); err != nil {
+				return err
+			}
+			if pass == 1 {
+				if err := par2.Create(filepath.Join(arch, "new.par2"), []string{filepath.Join(arch, "keep.txt")}, par2.CreateOptions{SliceByteCount: 8, NumParityShards: 7, NumGoroutines: 1}); err != nil {
+					return fmt.Errorf("prior Create: %v", err)
 				}
+			}
+			before, _ := sandbox.Take(root)
+			err := func() (e error) {
+				defer func() {
+					if r := recover(); r != nil {
+						e = fmt.Errorf("panic: %v", r)
+					}
+				}()
+				return par2.Create(filepath.Join(arch, "new.par2"), []string{filepath.Join(arch, "keep.txt"), in.path}, par2.CreateOptions{SliceByteCount: 8, NumParityShards: 2, NumGoroutines: 1})
 			}()
-			return par2.Create(filepath.Join(arch, "new.par2"), []string{filepath.Join(arch, "keep.txt"), in.path}, par2.CreateOptions{SliceByteCount: 8, NumParityShards: 2, NumGoroutines: 1})
-		}()
-		after, _ := sandbox.Take(root)
-		cr, del, chg, tch := sandbox.Diff(before, after)
-		nothing := len(cr)+len(del)+len(chg) == 0
-		_ = tch
-		lg.Emit(tracelog.M{"ev": "create", "name": scrub([]string{in.path}, c.dir)[0], "pos": i, "n": 2, "is_outside": in.outside, "refused": err != nil,
-			"errtext": errStr(err), "nothing_written": nothing, "outside": scrub(outsideChanges(before, after, "outer/arch/", false), c.dir),
-			"crashed": err != nil && strings.HasPrefix(err.Error(), "panic"), "accept_model": !in.outside, "contained": !in.outside,
-			"verify_err": "", "repair_err": "", "repaired": []string{}})
+			after, _ := sandbox.Take(root)
+			cr, del, chg, tch := sandbox.Diff(before, after)
+			nothing := len(cr)+len(del)+len(chg) == 0
+			_ = tch
+			lg.Emit(tracelog.M{"ev": "create", "name": scrub([]string{in.path}, c.dir)[0], "pos": i, "n": 2, "is_outside": in.outside, "refused": err != nil,
+				"errtext": errStr(err), "nothing_written": nothing, "outside": scrub(outsideChanges(before, after, "outer/arch/", false), c.dir),
+				"crashed": err != nil && strings.HasPrefix(err.Error(), "panic"), "accept_model": !in.outside, "contained": !in.outside,
+				"verify_err": "", "repair_err": "", "repaired": []string{}, "prior": pass == 1})
+		}
 	}
 	os.RemoveAll(root)
 	return sc.Err()
